@@ -320,6 +320,8 @@ def ev_mcall(e, env, ctx):
             return sub_size(ctx, "qbase/src/net.rs", "SocketAddr", "encoding_size", r)
         if r.kind == "struct" and r.sname == "EcnCounts":
             return sub_size(ctx, FR + "ack.rs", "EcnCounts", "encoding_size", r, r"impl EcnCounts \{")
+        if r.kind == "prefimg":
+            return V("nat", f"{r.term}.length")
         if r.kind == "resettoken":
             txt = fn_body(src_of(ctx.g, "qbase/src/token.rs"), r"impl ResetToken \{", r"pub fn encoding_size\(&self\) -> usize \{", "ResetToken::encoding_size")
             sub = Ctx(ctx.g, ctx.spec, src_of(ctx.g, "qbase/src/token.rs"), "qbase/src/token.rs")
